@@ -89,7 +89,7 @@ def discharge_one(ob, timeout_ms=30000, use_cli=True):
         text = _smt2(ob.assumptions, ob.claim)
         uses_strings = "String" in text or "str." in text
         t1 = time.time()
-        cmd = ["/usr/bin/cvc5", "--tlimit=%d" % timeout_ms] + (["--strings-exp"] if uses_strings else [])
+        cmd = ["/usr/bin/cvc5", "--force-logic=ALL", "--tlimit=%d" % timeout_ms] + (["--strings-exp"] if uses_strings else [])
         first, out = _run_cli(cmd, text, timeout_ms / 1000.0)
         if first == "unsat":
             return Result("PROVED", "cvc5-1.0.3", time.time() - t1, output="z3: unknown (%s)" % reason)
@@ -169,7 +169,7 @@ def _worker(task):
         cli_ms = max(5000, timeout_ms // 2)
         uses_strings = "String" in text or "str." in text
         t1 = time.time()
-        cmd = ["/usr/bin/cvc5", "--tlimit=%d" % cli_ms] + (["--strings-exp"] if uses_strings else [])
+        cmd = ["/usr/bin/cvc5", "--force-logic=ALL", "--tlimit=%d" % cli_ms] + (["--strings-exp"] if uses_strings else [])
         first, out = _run_cli(cmd, text, cli_ms / 1000.0)
         if first == "unsat":
             return idx, ("PROVED", "cvc5-1.0.3", time.time() - t1, None, "z3: unknown (%s)" % reason)
